@@ -326,5 +326,5 @@ func checkHTTP(c HTTPCase, o *vf.Obs) error {
 func TestHTTPSamples(t *testing.T) {
 	pand.Init()
 	r := vf.Start(t, "C10")
-	vf.Check(r, genHTTP, checkHTTP)
+	vf.Check(r, genHTTP, vf.LoadTolerant(25*time.Millisecond, checkHTTP))
 }
